@@ -608,10 +608,306 @@ class _InlineCM(ast.NodeTransformer):
         return node
 
 
+def _simple(e: ast.AST, target: str) -> bool:
+    """evaluating e has no effect and does not read `target`"""
+    if isinstance(e, ast.Constant):
+        return True
+    if isinstance(e, ast.Name):
+        return e.id != target
+    if isinstance(e, ast.Attribute):
+        return _simple(e.value, target)
+    return False
+
+
+def _first_walrus(e: ast.AST):
+    """the NamedExpr that is evaluated before anything else in e that could matter (only effect-free reads of other names
+    precede it), or None. Returns (parent, field, index, node)."""
+
+    def go(node, parent, field, index, before):
+        # `before`: predicate saying whether everything evaluated so far is simple w.r.t. a target
+        if isinstance(node, ast.NamedExpr):
+            inner = go(node.value, node, "value", None, before)
+            if inner is not None:
+                return inner
+            if isinstance(node.target, ast.Name) and all(_simple(b, node.target.id) for b in before):
+                return (parent, field, index, node)
+            return None
+        if isinstance(node, (ast.Lambda, ast.ListComp, ast.SetComp, ast.DictComp, ast.GeneratorExp, ast.Await, ast.Yield, ast.YieldFrom)):
+            return None
+        if isinstance(node, ast.BoolOp):
+            return go(node.values[0], node, "values", 0, before)
+        if isinstance(node, ast.IfExp):
+            return go(node.test, node, "test", None, before)
+        if isinstance(node, ast.Compare):
+            r = go(node.left, node, "left", None, before)
+            if r is not None or len(node.comparators) != 1:
+                return r
+            return go(node.comparators[0], node, "comparators", 0, before + [node.left])
+        if isinstance(node, ast.UnaryOp):
+            return go(node.operand, node, "operand", None, before)
+        if isinstance(node, ast.BinOp):
+            r = go(node.left, node, "left", None, before)
+            return r if r is not None else go(node.right, node, "right", None, before + [node.left])
+        if isinstance(node, ast.Attribute):
+            return go(node.value, node, "value", None, before)
+        if isinstance(node, ast.Subscript):
+            r = go(node.value, node, "value", None, before)
+            return r if r is not None else go(node.slice, node, "slice", None, before + [node.value])
+        if isinstance(node, ast.Call):
+            r = go(node.func, node, "func", None, before)
+            seen = before + [node.func]
+            for i, a in enumerate(node.args):
+                if r is not None:
+                    return r
+                if isinstance(a, ast.Starred):
+                    return None
+                r = go(a, node, "args", i, seen)
+                seen = seen + [a]
+            return r
+        if isinstance(node, (ast.Tuple, ast.List)):
+            seen = list(before)
+            for i, a in enumerate(node.elts):
+                r = go(a, node, "elts", i, seen)
+                if r is not None:
+                    return r
+                seen = seen + [a]
+            return None
+        return None
+
+    return go(e, None, None, None, [])
+
+
+class _HoistWalrus(ast.NodeTransformer):
+    """`if (x := f(a)) is not None: ..`  ->  `x = f(a)` followed by `if x is not None: ..` (same for the value of an
+    assignment / return / expression statement) when the assignment expression is evaluated before anything else in the
+    statement that could tell the difference. Inside functions only; loops' tests and comprehensions are left alone."""
+
+    def __init__(self):
+        self.n = 0
+
+    def _hoist(self, stmt):
+        pre = []
+        for _ in range(4):
+            if isinstance(stmt, ast.If):
+                holder, fld = stmt, "test"
+            elif isinstance(stmt, (ast.Assign, ast.AugAssign, ast.Return, ast.Expr)) and getattr(stmt, "value", None) is not None:
+                holder, fld = stmt, "value"
+            else:
+                break
+            root = getattr(holder, fld)
+            if isinstance(root, ast.NamedExpr) and isinstance(root.target, ast.Name):
+                found = (holder, fld, None, root)
+            else:
+                found = _first_walrus(root)
+                if found is not None and found[0] is None:
+                    found = (holder, fld, None, found[3])
+            if found is None:
+                break
+            parent, field, index, w = found
+            pre.append(ast.copy_location(ast.Assign(targets=[ast.Name(id=w.target.id, ctx=ast.Store())], value=w.value, type_comment=None), stmt))
+            repl = ast.copy_location(ast.Name(id=w.target.id, ctx=ast.Load()), w)
+            if index is None:
+                setattr(parent, field, repl)
+            else:
+                getattr(parent, field)[index] = repl
+            self.n += 1
+        return pre
+
+    def generic_visit(self, node):
+        super().generic_visit(node)
+        for fld in ("body", "orelse", "finalbody"):
+            stmts = getattr(node, fld, None)
+            if isinstance(stmts, list) and stmts and isinstance(stmts[0], ast.stmt):
+                new = []
+                for s_ in stmts:
+                    if any(isinstance(x, ast.NamedExpr) for x in ast.walk(s_) if not isinstance(s_, (ast.FunctionDef, ast.ClassDef, ast.AsyncFunctionDef, ast.For, ast.While, ast.With, ast.Try))):
+                        new.extend(self._hoist(s_))
+                    new.append(s_)
+                setattr(node, fld, new)
+        return node
+
+
+def _record_classes(trees: Dict[str, ast.Module]) -> Dict[str, List[tuple]]:
+    """private NamedTuple classes written in class form with nothing but fields: {class name: [(field, default expr or None)]}"""
+    out: Dict[str, List[tuple]] = {}
+    dup = set()
+    for t in trees.values():
+        for c in ast.walk(t):
+            if not isinstance(c, ast.ClassDef) or not any(ast.unparse(b).split(".")[-1] == "NamedTuple" for b in c.bases):
+                continue
+            fields = []
+            ok = True
+            for st in c.body:
+                if isinstance(st, ast.Expr) and isinstance(st.value, ast.Constant):
+                    continue
+                if isinstance(st, ast.AnnAssign) and isinstance(st.target, ast.Name):
+                    fields.append((st.target.id, st.value))
+                    continue
+                ok = False
+            if not ok or not fields or c.decorator_list:
+                continue
+            if c.name in out:
+                dup.add(c.name)
+            out[c.name] = fields
+    for d in dup:
+        out.pop(d, None)
+    return out
+
+
+def _as_tuple(call: ast.Call, fields: List[tuple]):
+    """C(a, b=..) -> (a, ..) in field order, or None when the call cannot be read"""
+    if any(isinstance(a, ast.Starred) for a in call.args) or any(k.arg is None for k in call.keywords) or len(call.args) > len(fields):
+        return None
+    vals: List[Optional[ast.AST]] = list(call.args) + [None] * (len(fields) - len(call.args))
+    names = [f for f, _ in fields]
+    for k in call.keywords:
+        if k.arg not in names or vals[names.index(k.arg)] is not None:
+            return None
+        vals[names.index(k.arg)] = k.value
+    for i, (f, d) in enumerate(fields):
+        if vals[i] is None:
+            if d is None:
+                return None
+            import copy as _c
+
+            vals[i] = _c.deepcopy(d)
+    return ast.copy_location(ast.Tuple(elts=vals, ctx=ast.Load()), call)
+
+
+def _records_to_tuples(trees: Dict[str, ast.Module]) -> List[str]:
+    """A private NamedTuple is a tuple with names for its positions. For analysis: C(a, b) becomes (a, b), and r.field -
+    where r is the result of a function that returns C, a C(..) itself, or a parameter annotated C - becomes r[i]."""
+    recs = _record_classes(trees)
+    if not recs:
+        return []
+
+    def cls_of_call(c: ast.AST) -> Optional[str]:
+        if isinstance(c, ast.Call):
+            nm = c.func.id if isinstance(c.func, ast.Name) else (c.func.attr if isinstance(c.func, ast.Attribute) else None)
+            return nm if nm in recs else None
+        return None
+
+    def ann_cls(a: Optional[ast.AST]) -> Optional[str]:
+        if a is None:
+            return None
+        txt = a.value if isinstance(a, ast.Constant) and isinstance(a.value, str) else ast.unparse(a)
+        txt = txt.split(".")[-1]
+        return txt if txt in recs else None
+
+    # functions that return a record: by annotation, or every return constructs the same record
+    all_fns = [f for t in trees.values() for f in ast.walk(t) if isinstance(f, (ast.FunctionDef, ast.AsyncFunctionDef))]
+    by_name: Dict[str, List[ast.AST]] = {}
+    for f in all_fns:
+        by_name.setdefault(f.name, []).append(f)
+    ret_cls: Dict[str, str] = {}
+    for _round in range(3):
+        for f in all_fns:
+            if f.name in ret_cls or len(by_name[f.name]) != 1:
+                continue
+            c = ann_cls(f.returns)
+            if c is None:
+                own_rets = [r for r in _own_returns(f)]
+                cs = set()
+                for r in own_rets:
+                    if r.value is None:
+                        cs.add(None)
+                    else:
+                        k = cls_of_call(r.value)
+                        if k is None and isinstance(r.value, ast.Call):
+                            nm = r.value.func.id if isinstance(r.value.func, ast.Name) else (r.value.func.attr if isinstance(r.value.func, ast.Attribute) else None)
+                            k = ret_cls.get(nm) if nm else None
+                        cs.add(k)
+                if len(cs) == 1 and None not in cs and own_rets:
+                    c = next(iter(cs))
+            if c is not None:
+                ret_cls[f.name] = c
+
+    def rec_of_expr(e: ast.AST, env: Dict[str, str]) -> Optional[str]:
+        if isinstance(e, ast.Name):
+            return env.get(e.id)
+        k = cls_of_call(e)
+        if k is not None:
+            return k
+        if isinstance(e, ast.Call):
+            nm = e.func.id if isinstance(e.func, ast.Name) else (e.func.attr if isinstance(e.func, ast.Attribute) else None)
+            return ret_cls.get(nm) if nm else None
+        return None
+
+    for f in all_fns:
+        env: Dict[str, str] = {}
+        for a in f.args.posonlyargs + f.args.args + f.args.kwonlyargs:
+            c = ann_cls(a.annotation)
+            if c is not None:
+                env[a.arg] = c
+        stores: Dict[str, int] = {}
+        for x in _own_walk(f):
+            if isinstance(x, ast.Name) and isinstance(x.ctx, ast.Store):
+                stores[x.id] = stores.get(x.id, 0) + 1
+        for x in _own_walk(f):
+            if isinstance(x, ast.Assign) and len(x.targets) == 1 and isinstance(x.targets[0], ast.Name) and stores.get(x.targets[0].id) == 1:
+                c = rec_of_expr(x.value, env)
+                if c is not None:
+                    env[x.targets[0].id] = c
+
+        class _A(ast.NodeTransformer):
+            def visit_FunctionDef(self_, n):
+                return n if n is not f else self_.generic_visit(n)
+
+            visit_AsyncFunctionDef = visit_FunctionDef
+
+            def visit_Attribute(self_, n):
+                self_.generic_visit(n)
+                if isinstance(n.ctx, ast.Load):
+                    c = rec_of_expr(n.value, env)
+                    if c is not None:
+                        names = [fl for fl, _ in recs[c]]
+                        if n.attr in names:
+                            return ast.copy_location(ast.Subscript(value=n.value, slice=ast.Constant(value=names.index(n.attr)), ctx=ast.Load()), n)
+                return n
+
+        _A().visit(f)
+
+    class _C(ast.NodeTransformer):
+        def visit_Call(self_, n):
+            self_.generic_visit(n)
+            k = cls_of_call(n)
+            if k is not None:
+                t = _as_tuple(n, recs[k])
+                if t is not None:
+                    return t
+            return n
+
+    for t in trees.values():
+        _C().visit(t)
+        ast.fix_missing_locations(t)
+    return sorted(recs)
+
+
+def _own_walk(f: ast.AST):
+    """nodes of f's body without nested function / class bodies"""
+    stack = list(ast.iter_child_nodes(f))
+    while stack:
+        n = stack.pop()
+        yield n
+        if isinstance(n, (ast.FunctionDef, ast.AsyncFunctionDef, ast.ClassDef, ast.Lambda)):
+            continue
+        stack.extend(ast.iter_child_nodes(n))
+
+
+def _own_returns(f: ast.AST):
+    return [n for n in _own_walk(f) if isinstance(n, ast.Return)]
+
+
 def canonicalise(trees: Dict[str, ast.Module]) -> Dict[str, str]:
     """rename renamed private anchors back (in the trees); returns {canonical name: name used in this tree}"""
     for t in trees.values():
         _Deannotate().visit(t)
+    for t in trees.values():
+        if any(isinstance(x, ast.NamedExpr) for x in ast.walk(t)):
+            for fn in [x for x in ast.walk(t) if isinstance(x, (ast.FunctionDef, ast.AsyncFunctionDef))]:
+                _HoistWalrus().generic_visit(fn)
+            ast.fix_missing_locations(t)
+    _records_to_tuples(trees)
     for t in trees.values():
         gens = {k: v for k, v in _cm_generators(t).items() if k.startswith("_")}
         if gens:
